@@ -247,6 +247,7 @@ def run(rep, tier):
     hs = check_array(rep, tier)
     witnesses(rep)
     c01.declare(rep)
+    rep.rules.pop("C01.b-ctor", None)
     c01.run_array(rep, tier)
     # layout conversion is one of the history's operations: buffer size and recorded element count must agree there too
     c05.declare(rep)
